@@ -21,6 +21,23 @@ TRUSTED = ("Trusted base: the simulator in /verif/sim (virtual-time loop, link m
 SIM = "deterministic simulation: virtual-time asyncio loop + simulated multicast link, seeded schedule/fault search, "
 
 CHECKS = {
+    "C04": {
+        "text": "Seeded search over response histories and clock advances (0 ms..hours) delivered to one real instance "
+                "with 1..3 AsyncServiceBrowsers started/cancelled at arbitrary points; invariants checked after every "
+                "delivery, purge and browser start: Added/Removed alternation per (browser, type, instance), "
+                "Added-not-Removed == cached PTR aliases, and the cache already complete inside add_service. "
+                "Exploration, because the property is a statement over all histories x schedules.",
+        "technique": SIM + "invariants at every quiescent point against ModelCache-driven expectations",
+        "design_ref": "DESIGN.md §5 C04",
+    },
+    "C06": {
+        "text": "Seeded search over response histories with probe listeners added/removed at arbitrary points (also from "
+                "inside callbacks); every delivered datagram's (new, previous) pairs, their order, exactly-once "
+                "delivery, and the cache state visible inside each of the two callbacks are compared with the reference "
+                "cache model (PTR TTL floor, arrival time as creation time, flush only beyond 1000 ms).",
+        "technique": SIM + "probe listeners snapshot the cache inside callbacks; compared per datagram with ModelCache",
+        "design_ref": "DESIGN.md §5 C06",
+    },
     "C05": {
         "text": "Seeded search over response-datagram histories (repeats, refreshes, goodbyes, cache-flush, re-cased names) "
                 "and clock steps around the 1 s flush window, TTL expiry and the 10 s purge, driven through the real "
